@@ -689,6 +689,8 @@ def run(ctx):
     for mn_ in ('correlators',):
         ctx.guarded('C14-D9', mn_ + '@parameters', unusedparams.check, ctx, 'C14-D9', ctx.repo.mod(mn_))
         ctx.guarded('C14-D9', mn_ + '@loop-variables', leakedloop.check, ctx, 'C14-D9', ctx.repo.mod(mn_))
+    from .. import searchloop
+    ctx.guarded('C14-D1', 'correlators@undefined-skipped-not-final', searchloop.none_ends_scan, ctx, 'C14-D1', mod)
 
 
 
